@@ -250,7 +250,7 @@ Section Instances.
   Hypothesis Hssort : sorts ltb ssort.
 
   (** parallel_mergesort over the C08 partition and the C05 merge (stable or not) *)
-  Theorem pms_c08_c05_sorted_permutation stable sampling os p input : 1 <= os -> 1 <= p ->
+  Theorem pms_c08_c05_sorted_permutation stable sampling os p input : (sampling = true -> 1 <= os) -> 1 <= p ->
     let r := pms ltb lsort ssort partition_c08 (mmerge_c05 stable) d sampling os p input in
     Permutation (res_array r) input /\ SS ltb (res_array r) /\ res_ok r = true.
   Proof.
@@ -259,7 +259,7 @@ Section Instances.
   Qed.
 
   (** stable_parallel_mergesort over the C08 partition and the stable C05 merge *)
-  Theorem pms_c08_c05_stable sampling os p input : 1 <= os -> 1 <= p ->
+  Theorem pms_c08_c05_stable sampling os p input : (sampling = true -> 1 <= os) -> 1 <= p ->
     (forall l, lsort l = stable_sort ltb l) ->
     res_array (pms ltb lsort ssort partition_c08 (mmerge_c05 true) d sampling os p input) = stable_sort ltb input.
   Proof.
@@ -269,7 +269,7 @@ Section Instances.
   Qed.
 
   (** ... and over the C09 trees *)
-  Theorem pms_c08_c09_sorted_permutation ptr stable sampling os p input : 1 <= os -> 1 <= p ->
+  Theorem pms_c08_c09_sorted_permutation ptr stable sampling os p input : (sampling = true -> 1 <= os) -> 1 <= p ->
     let r := pms ltb lsort ssort partition_c08 (mmerge_c09 ptr stable) d sampling os p input in
     Permutation (res_array r) input /\ SS ltb (res_array r) /\ res_ok r = true.
   Proof.
@@ -277,7 +277,7 @@ Section Instances.
              partition_c08_spec (mmerge_c09_merges ptr stable)).
   Qed.
 
-  Theorem pms_c08_c09_stable ptr sampling os p input : 1 <= os -> 1 <= p ->
+  Theorem pms_c08_c09_stable ptr sampling os p input : (sampling = true -> 1 <= os) -> 1 <= p ->
     (forall l, lsort l = stable_sort ltb l) ->
     res_array (pms ltb lsort ssort partition_c08 (mmerge_c09 ptr true) d sampling os p input) = stable_sort ltb input.
   Proof.
